@@ -167,11 +167,24 @@ def runCompHist (ws : List String) : Option String := do
     pure (" | ".intercalate (outs.map (fun o => "T=" ++ o.1.toText ++ ";K=" ++ showVec o.2)))
   | _ => none
 
+/-- split a word list on the separator word `||` -/
+def splitVariants (ws : List String) : List (List String) :=
+  ws.foldr (fun w acc => if w = "||" then [] :: acc else match acc with
+    | [] => [[w]]
+    | a :: rest => (w :: a) :: rest) [[]]
+
+/-- `estv <est args of variant 0> || <est args of variant 1> …`: the variant loop of `estimate`, one reply per variant joined
+by ` || ` (the variants share dimensions and options; the model maps `estimate` over the variants' data) -/
+def runEstVariants (ws : List String) : Option String := do
+  let rs ← (splitVariants ws).mapM runEst
+  pure (" || ".intercalate rs)
+
 def step (line : String) : String :=
   match words line with
   | "est" :: ws => (runEst ws).getD "bad-op"
   | "sim" :: ws => (runSim ws).getD "bad-op"
   | "comp" :: ws => (runComp ws).getD "bad-op"
+  | "estv" :: ws => (runEstVariants ws).getD "bad-op"
   | "comph" :: ws => (runCompHist ws).getD "bad-op"
   | "merge" :: ws => (runMerge ws).getD "bad-op"
   | _ => "bad-op"
